@@ -19,6 +19,8 @@ pub enum Error {
     Incomplete(&'static str),
     /// Invalid protocol ID in Handshake message. Check [BEP3](https://www.bittorrent.org/beps/bep_0003.html#peer%20protocol).
     InvalidProtocolId,
+    /// Peer sent message before (valid) Handshake.
+    HandshakeMissing,
     /// Peer return invalid info hash in Handshake message.
     InvalidInfoHash,
     /// Peer introduced himself with unexpected ID
@@ -106,6 +108,7 @@ impl fmt::Display for Error {
             Error::UnknownId(msg_id) => write!(f, "Unknown Id({})", msg_id),
             Error::Incomplete(msg) => write!(f, "Incomplete {}", msg),
             Error::InvalidProtocolId => write!(f, "Invalid protocol Id"),
+            Error::HandshakeMissing => write!(f, "Message before handshake"),
             Error::InvalidInfoHash => write!(f, "Invalid info hash"),
             Error::InvalidPeerId => write!(f, "Invalid peer id"),
             Error::InvalidLength(msg) => write!(f, "Invalid length in {}", msg),
